@@ -868,7 +868,7 @@ func (mon) Name() string { return "filecopy" }
 
 func (mon) Level(prop string) (string, string) {
 	return "fault_enumeration", "BOTH TIERS: complete product of operation {CopyFile, MoveFile} × source size × source {present, missing, symlink to file} × destination {missing, shorter, longer, directory, parent missing, parent is a file, symlink to another file, dangling symlink, and the source itself as same path / ./ / dir/../ / symlink / relative symlink / hard link / symlink chain / through a directory symlink} × placement {root FS, tmpfs, across both (real EXDEV)}; a name-related family (source named destination+suffix or dot+destination+suffix and the reverse, in one directory, 14 temp/backup suffixes; also with MoveFile forced into its fallback); an enumerated list of failing steps inside the call (RLIMIT_FSIZE in a probe process; strace tampering: rename→EXDEV or another errno, copy_file_range/read/write/openat/fstat/unlinkat errors at the k-th call, k∈{1,2}). " +
-		"THOROUGH ADDS (deep.go): every size 0..64, ±1 around 4 KiB / 32 KiB / 64 KiB / 1 MiB, 2–32 MiB and sparse sources; sources that are hard-linked or a symlink onto the other file system; destinations of equal length, same content, read-only, non-empty directory, symlink to a directory, symlink loop, symlink chain to another file, symlink to a (missing) file on the other file system, symlink→hard link and symlink→other-FS symlink→source aliases – each for both operations and all four placements; awkward names (spaces, unicode, newline, 250 bytes, leading dashes, shell metacharacters) and path spellings (trailing slash, dir/../dir, //, /./ on either side); a fault sweep that first lists the syscalls of a call on the two paths (strace -P) and then fails EVERY occurrence of each (openat, fstat, newfstatat, copy_file_range, read, write, rename*, unlinkat, …) with each of ENOSPC/EIO/EINTR/EDQUOT/EACCES/ENOMEM, for copy_file_range and for the read/write fallback; RLIMIT_FSIZE at byte 0, 1, size/3, page and buffer boundaries, size-1, size, size+1 (with copy_file_range disabled this yields genuine short write(2) counts); MoveFile forced into its fallback over every source and destination state; 2/8/32 concurrent calls on distinct files in shared directories; seeded random combinations of all dimensions including faults. " +
+		"THOROUGH ADDS (deep.go): every size 0..64, ±1 around 4 KiB / 32 KiB / 64 KiB / 1 MiB, 2–32 MiB and sparse sources; sources that are hard-linked or a symlink onto the other file system; destinations of equal length, same content, read-only, non-empty directory, symlink to a directory, symlink loop, symlink chain to another file, symlink to a (missing) file on the other file system, symlink→hard link and symlink→other-FS symlink→source aliases – each for both operations and all four placements; awkward names (spaces, unicode, newline, 250 bytes, leading dashes, shell metacharacters) and path spellings (trailing slash, dir/../dir, //, /./ on either side); a fault sweep that first lists the syscalls of a call on the two paths (strace -P) and then fails EVERY occurrence of each (openat, fstat, newfstatat, copy_file_range, read, write, rename*, unlinkat, …) with each of ENOSPC/EIO/EINTR/EDQUOT (the random shards add EACCES/EMFILE/ENOMEM/EROFS/EBUSY), for copy_file_range and for the read/write fallback; RLIMIT_FSIZE at byte 0, 1, size/3, page and buffer boundaries, size-1, size, size+1 (with copy_file_range disabled this yields genuine short write(2) counts); MoveFile forced into its fallback over every source and destination state; 2/8/32 concurrent calls on distinct files in shared directories; seeded random combinations of all dimensions including faults. " +
 		"Never handed to the code under test: device nodes, FIFOs or any path outside the monitor's own temp dirs. Judged by SHA-256+length snapshots before/after; distinct_nontrivial = distinct (op, size, source, destination, placement, name relation/style/spelling, fault, concurrency) tuples with a source present that were really executed"
 }
 
@@ -927,7 +927,7 @@ func (mon) Plan(prop, tier string, seed int64) []drv.Shard {
 	}
 	// deep exploration (deep.go); generous watchdogs, the work is a fixed list
 	const dog = 7200
-	const sweepParts, randParts, randCount = 64, 16, 6000
+	const sweepParts, randParts, randCount = 64, 16, 4000
 	// longest first
 	for p := 0; p < sweepParts; p++ {
 		add(fmt.Sprintf("sweep-%d", p), shardArgs{Kind: "sweep", Part: p, Parts: sweepParts}, dog)
@@ -1205,7 +1205,7 @@ func (mn mon) Run(sh drv.Shard, c *drv.Ctx) {
 		c.Progress(sh.Name+": "+cs.id(), true)
 		var oc outcome
 		k, exp, obs := runCase(cs, e, &oc)
-		mn.record(c, cs, &oc)
+		mn.record(c, cs, &oc, deepKind(a.Kind))
 		if oc.harness != "" {
 			harnessFailures++
 			if harnessFailures <= 3 {
@@ -1242,6 +1242,9 @@ func (mn mon) Run(sh drv.Shard, c *drv.Ctx) {
 		c.Add("sweep_base_calls_enumerated", 1)
 		total := 0
 		for _, name := range sortedKeys(counts) {
+			if strings.Contains(name, "?") {
+				continue
+			}
 			total += counts[name]
 			c.MaxOf("sweep_max_occurrences:"+name, int64(counts[name]))
 		}
@@ -1254,7 +1257,7 @@ func (mn mon) Run(sh drv.Shard, c *drv.Ctx) {
 }
 
 // record books what one case observed.
-func (mon) record(c *drv.Ctx, cs Case, oc *outcome) {
+func (mon) record(c *drv.Ctx, cs Case, oc *outcome, deep bool) {
 	if oc.skipped != "" {
 		c.Add("skipped: "+oc.skipped, 1)
 		return
@@ -1266,7 +1269,7 @@ func (mon) record(c *drv.Ctx, cs Case, oc *outcome) {
 	if cs.Src != "missing" {
 		c.DistinctStr(fmt.Sprintf("%s|%d|%s|%s|%s|%s|%s|%s|%s|%s|%d", cs.Op, cs.Size, cs.Src, cs.Dst, cs.SrcFS, cs.DstFS, cs.Rel, cs.Fault.String(), cs.Name, cs.Spell, cs.Conc))
 	}
-	c.SetAdd("sizes_exercised", strconv.Itoa(cs.Size))
+	c.SetAdd("sizes_exercised", sizeLabel(int64(cs.Size)))
 	c.SetAdd("source_states_exercised", cs.Src)
 	c.SetAdd("destination_states_exercised", cs.Dst)
 	if cs.Name != "" {
@@ -1322,7 +1325,14 @@ func (mon) record(c *drv.Ctx, cs Case, oc *outcome) {
 			c.Add("alias_calls_refused", 1)
 		}
 	}
-	if cs.Rel == "" {
+	if deep {
+		// bounded: the deep shards run hundreds of thousands of combinations
+		if cs.Fault == nil {
+			c.SetAdd("outcomes_deep", fmt.Sprintf("%s %s->%s %s => %s", cs.Op, cs.Src, cs.Dst, cs.fsRel(), cls))
+		} else {
+			c.SetAdd("outcomes_deep_faults", fmt.Sprintf("%s %s %s => %s", cs.Op, cs.fsRel(), compactFault(cs.Fault), cls))
+		}
+	} else if cs.Rel == "" {
 		c.SetAdd("outcomes", fmt.Sprintf("%s %s->%s %s %s => %s", cs.Op, cs.Src, cs.Dst, cs.fsRel(), faultClass(cs.Fault), cls))
 	} else {
 		side := cs.Rel[:strings.IndexByte(cs.Rel, ':')]
@@ -1338,7 +1348,7 @@ func (mon) record(c *drv.Ctx, cs Case, oc *outcome) {
 				c.Add("rlimit_at_byte_0", 1)
 			case lim < int64(cs.Size):
 				c.Add("rlimit_inside_the_file", 1)
-				c.SetAdd("rlimit_offsets_inside", strconv.FormatInt(lim, 10))
+				c.SetAdd("rlimit_offsets_inside", sizeLabel(lim))
 			default:
 				c.Add("rlimit_at_or_past_the_end", 1)
 			}
@@ -1348,7 +1358,7 @@ func (mon) record(c *drv.Ctx, cs Case, oc *outcome) {
 			if cs.Fault.RenameErr != "" {
 				c.Add("rename_forced_to_fail", int64(oc.renameHits))
 				if oc.renameHits == 0 {
-					c.SetAdd("faults_not_reached", cs.Op+" "+cs.Dst+" "+faultClass(cs.Fault))
+					c.SetAdd("faults_not_reached", notReachedLabel(cs, deep))
 				}
 			}
 			if len(cs.Fault.Inject) > 0 {
@@ -1358,14 +1368,20 @@ func (mon) record(c *drv.Ctx, cs Case, oc *outcome) {
 				}
 				for _, inj := range cs.Fault.Inject {
 					p := strings.Split(inj, ":")
-					if len(p) == 3 && strings.HasPrefix(p[2], "when=") && len(oc.hits) > 0 {
+					wasHit := false
+					for _, h := range oc.hits {
+						if h == p[0] {
+							wasHit = true
+						}
+					}
+					if len(p) == 3 && strings.HasPrefix(p[2], "when=") && wasHit {
 						c.SetAdd("injection_points_hit", p[0]+"@"+p[2][5:])
 						c.SetAdd("errnos_injected", strings.TrimPrefix(p[1], "error="))
 					}
 				}
 				if len(oc.hits) == 0 {
 					c.Add("faults_not_reached_count", 1)
-					c.SetAdd("faults_not_reached", cs.Op+" "+cs.Dst+" "+faultClass(cs.Fault))
+					c.SetAdd("faults_not_reached", notReachedLabel(cs, deep))
 				}
 			}
 		}
@@ -1375,6 +1391,21 @@ func (mon) record(c *drv.Ctx, cs Case, oc *outcome) {
 	} else if c.NumSamples() < 2 && (isAlias(cs.Dst) || cs.SrcFS != cs.DstFS) && cs.Size > 0 {
 		c.Sample(map[string]any{"case": cs, "returned": cls})
 	}
+}
+
+func deepKind(k string) bool {
+	switch k {
+	case "deep", "big", "spell", "rlimit-deep", "exdev-deep", "sweep", "conc", "rand":
+		return true
+	}
+	return false
+}
+
+func notReachedLabel(cs Case, deep bool) string {
+	if deep {
+		return cs.Op + " " + compactFault(cs.Fault)
+	}
+	return cs.Op + " " + cs.Dst + " " + faultClass(cs.Fault)
 }
 
 // Finish: the check needs to have seen the fallback of MoveFile and failing steps inside the copy.
